@@ -471,6 +471,16 @@ class Interp:
             return True
         if isinstance(v, ListVal) and not v.per_iter:
             return bool(v.items)
+        if isinstance(v, ListVal) and not v.items and len(v.per_iter) == 1 and isinstance(v.per_iter[0], tuple) and isinstance(v.per_iter[0][1], X):
+            # a generated list is non-empty iff its count is positive
+            from .values import _pos_x
+            try:
+                if _pos_x(v.per_iter[0][1]): return True          # counts declared as naturals are positive by convention (a plan has at least one bin)
+            except Exception: pass
+            t = libmodel.scal_compare(ast.Gt(), v.per_iter[0][1], X.const(0), "generated list is non-empty")
+            if isinstance(t, bool): return t
+            if isinstance(t, PV) and t.hi is True and t.lo is False: return (t.cond, True)
+            if isinstance(t, PV) and t.hi is False and t.lo is True: return (t.cond, False)
         # opaque / symbolic: a fresh opaque condition keyed by source text
         txt = " ".join(ast.unparse(node).split())
         return (Cond.get(("src", txt), txt), True)
@@ -754,6 +764,17 @@ class Interp:
 
     def e_Call(s, n, st):
         f = s.eval(n.func, st)
+        if isinstance(f, Lib) and f.name == "builtins.zip" and len(n.args) == 1 and isinstance(n.args[0], ast.Starred) and not n.keywords:
+            # zip(*rows): transpose a list of equally long records into one sequence per component
+            rows = s.eval(n.args[0].value, st)
+            rec0 = rows.per_iter[0][2] if isinstance(rows, ListVal) and not rows.items and len(rows.per_iter) == 1 and isinstance(rows.per_iter[0], tuple) else None
+            if isinstance(rec0, ListVal) and not rec0.per_iter: rec0 = tuple(rec0.items)
+            if isinstance(rec0, tuple):
+                var, count = rows.per_iter[0][:2]; rec = rec0
+                cols = []
+                for comp in rec:
+                    c_ = ListVal(); c_.per_iter = [(var, count, comp)]; cols.append(c_)
+                return tuple(cols)
         args = []
         for a in n.args:
             if isinstance(a, ast.Starred):
